@@ -493,9 +493,32 @@ def is_option_impl_rule(syn, crate, prop, rule="C02.R1b"):
                         r.fail(prop, "IS_OPTION-override %s" % S.squash(it["self_ty"]), "IS_OPTION overridden by impl TS for %s" % it["self_ty"], it["file"], it["line"])
     if n == 0:
         r.fail(prop, "anchor-missing IS_OPTION", "Option<T> does not set IS_OPTION = true")
+    # OptionInnerType differs from Self exactly where IS_OPTION is true; no shadow of Option (a shadow takes over
+    # OptionInnerType but not IS_OPTION, which would drop `| null` under optional_fields)
+    for it in syn.items:
+        if it["kind"] == "impl" and (it["trait"] or "").endswith("TS") and it["file"].startswith("ts-rs/src"):
+            oit = [a["value"] for a in it["assoc"] if a["name"] == "OptionInnerType"]
+            iso = [a["value"] for a in it["assoc"] if a["name"] == "IS_OPTION"]
+            if oit:
+                differs = S.squash(oit[0]) != "Self"
+                is_opt = bool(iso) and S.squash(iso[0]) == "true"
+                r.inst(impl="TS for " + S.squash(it["self_ty"]), OptionInnerType=oit[0], IS_OPTION=is_opt, consistent=differs == is_opt)
+                if differs != is_opt:
+                    r.fail(prop, "option-inner-type-mismatch %s" % S.squash(it["self_ty"]), "impl TS for %s has OptionInnerType = %s but IS_OPTION = %s" % (it["self_ty"], oit[0], is_opt), it["file"], it["line"])
+    for m in syn.item_macros:
+        if m["name"] == "impl_shadow" and m["file"].startswith("ts-rs/src"):
+            txt = " ".join(S.flat(m["tokens"]))
+            if re.match(r"^as (std :: option :: )?Option <", txt):
+                r.fail(prop, "shadow-of-option %s" % S.squash(txt.split(" TS for ")[-1]), "impl_shadow!(as Option<..>) forwards Option's OptionInnerType without IS_OPTION: under #[ts(optional_fields)] the field loses `| null` and gets no `?`", m["file"], m["line"])
     for m in syn.item_macros:
         if m["name"] == "macro_rules" and m.get("ident") in ("impl_wrapper", "impl_shadow", "impl_primitives", "impl_tuples"):
             has = "IS_OPTION" in S.flat(m["tokens"])
+            txt = " ".join(S.flat(m["tokens"]))
+            if m["ident"] != "impl_shadow":
+                own = "type OptionInnerType = Self ;" in txt
+                r.inst(macro=m["ident"], OptionInnerType_is_Self=own)
+                if not own:
+                    r.fail(prop, "option-inner-type-forwarded %s" % m["ident"], "%s! does not set OptionInnerType = Self although IS_OPTION stays false: under optional_fields a field of such a type around an Option loses `| null` without becoming optional" % m["ident"], m["file"], m["line"])
             r.inst(macro=m["ident"], forwards_IS_OPTION=has)
             if has:
                 r.fail(prop, "IS_OPTION-forwarded %s" % m["ident"], "%s! forwards IS_OPTION: a wrapper around Option would be treated as Option while its OptionInnerType is Self" % m["ident"], m["file"], m["line"])
@@ -1116,35 +1139,56 @@ def docs_slot_rule(syn, prop, rule="C15.R2a"):
 
 
 def docs_containment_rule(crate, syn, prop, rule="C15.R3"):
-    from vlib import mirlib as M
-    from vlib.mirlib import fn_matches
-    r = Result(rule, "doc text is neutralised before it is wrapped in /** .. */: the value of every doc literal passes str::replace(\"*/\", ..) on the way from LitStr::value() to the collected strings")
-    bodies = [b for b in crate.bodies if b.path.startswith("utils::parse_docs")]
-    if not bodies:
+    r = Result(rule, "doc text is neutralised on the *assembled* comment body: every value interpolated between `/**` and `*/` in parse_docs is the result of the escaping routine (replace(\"*/\", ..)) applied after the ` *` line prefixes were added; a block body that starts with `/` is padded so that it cannot form `/**/`")
+    fn = syn.fn("utils::parse_docs", "utils.rs") or syn.fn("parse_docs", "utils.rs")
+    if fn is None:
         r.fail(prop, "anchor-missing parse_docs", "not found")
         return r
-    n_src = 0
-    for b in bodies:
-        for blk, t in b.calls():
-            if b.is_cleanup(blk) or not fn_matches(t, r"syn::LitStr::value$"):
-                continue
-            n_src += 1
-            # forward: the value must flow into a replace("*/", _)
-            d = t["dst"]["l"]
-            ok = False
-            for bb, tt in b.calls():
-                if fn_matches(tt, r"str::<impl str>::replace") and len(tt["args"]) >= 2:
-                    c = M.op_const(tt["args"][1]) or {}
-                    if c.get("str") == "*/" and any(o["kind"] == "call" and o["block"] == blk for o in M.origins(b, M.op_local(tt["args"][0]))):
-                        # and the Ok(..) result derives from the replace
-                        ok = True
-            f, l = M.user_span(t["span"])
-            r.inst(fn=b.path, source="LitStr::value()", where="%s:%s" % (f, l), terminator_neutralised=ok)
-            if not ok:
-                r.fail(prop, "doc-terminator-unescaped parse_docs", "doc text reaches the /** .. */ wrapper without neutralising `*/`: `/// glob **/*.rs` ends the comment early and the rest is read as code", f, l)
-    if n_src == 0:
-        r.fail(prop, "anchor-missing doc literal source", "no LitStr::value() in parse_docs")
-    r.floor = 1
+    esc = [e for e in S.events(fn, "let") if 'replace("*/",' in S.squash(e["init"]) and S.squash(e["init"]).startswith("|")]
+    esc_names = {S.squash(e["pat"]) for e in esc}
+    r.inst(fn=fn["qual"], escaping_closures=sorted(esc_names))
+    wrappers = []
+    for e in S.events(fn, "macro"):
+        if e["name"] != "format" or not e["tokens"] or not isinstance(e["tokens"][0], str):
+            continue
+        lit = S.unquote(e["tokens"][0]) or ""
+        if not lit.startswith("/**"):
+            continue
+        wrappers.append(e)
+        args, cur = [], []
+        for x in e["tokens"][1:]:
+            if x == ",":
+                if cur:
+                    args.append(cur)
+                cur = []
+            else:
+                cur.append(x)
+        if cur:
+            args.append(cur)
+        slots = re.findall(r"\{(\w*)\}", lit.replace("{{", "").replace("}}", ""))
+        k = 0
+        for sname in slots:
+            if sname == "":
+                expr = "".join(S.flat(args[k])) if k < len(args) else ""
+                k += 1
+            else:
+                lets = [x for x in S.events(fn, "let") if S.squash(x["pat"]) == sname and x["seq"] < e["seq"]]
+                expr = S.squash(lets[-1]["init"]) if lets else ""
+            escaped = any(expr.startswith(n + "(") for n in esc_names)
+            raw = lets[-1]["init"] if (sname and lets) else ""
+            padding = bool(sname) and S.squash(raw).startswith("if") and "starts_with('/')" in S.squash(raw) and \
+                all(x.strip('"').strip() == "" for x in re.findall(r'"[^"]*"', raw))
+            r.inst(wrapper=lit, slot=sname or "{}", value=expr[:60], escaped=escaped, padding=padding)
+            if not (escaped or padding):
+                r.fail(prop, "doc-terminator-unescaped parse_docs", "the value `%s` placed between /** and */ (template %r) is not the result of the escaping routine: doc text such as `/// glob **/*.rs`, or a doc line starting with `/` after the ` *` prefix, ends the comment early" % (expr[:60], lit),
+                       fn["file"], e["line"])
+        if "{pad}" not in lit and lit.startswith("/**{"):
+            r.fail(prop, "doc-block-unpadded parse_docs", "a block doc body is placed directly after `/**`: a body starting with `/` forms `/**/`", fn["file"], e["line"])
+    if len(wrappers) < 2:
+        r.fail(prop, "anchor-missing doc wrappers", "expected the block and the line JSDoc wrappers in parse_docs, found %d" % len(wrappers), fn["file"], fn["line"])
+    if not esc_names:
+        r.fail(prop, "doc-terminator-unescaped parse_docs", "parse_docs has no routine replacing `*/`", fn["file"], fn["line"])
+    r.floor = 4
     return r
 
 
@@ -1176,6 +1220,50 @@ def docs_separator_rule(syn, crate, prop, rule="C15.R4"):
                "a block doc comment is copied verbatim (line %s) while merge() cuts declarations at blank lines (line %s): a blank line inside /** .. */ splits the declaration when a second type is merged into the file" % (verbatim, splits),
                fn["file"], verbatim[0])
     r.floor = 2
+    return r
+
+
+def variant_tag_rule(syn, prop, rule="C01.R5"):
+    r = Result(rule, "StructAttr::from_variant hands the enum's tag to a variant only if the variant has named fields, the enum is internally tagged, and the variant is not itself untagged")
+    fn = syn.fn("StructAttr::from_variant", "attr/struct.rs")
+    if fn is None:
+        r.fail(prop, "anchor-missing StructAttr::from_variant", "not found")
+        return r
+    sites = [e for e in S.events(fn, "call") if S.squash(e["func"]) == "Some" and "tag" in S.squash(e["args"][0]) and
+             any(c["k"] == "field_init" and S.squash(c["field"]) == "tag" for c in e["ctx"])]
+    if not sites:
+        r.fail(prop, "anchor-missing variant tag", "from_variant never passes a tag", fn["file"], fn["line"])
+    match_by_id = {e["id"]: e for e in S.events(fn, "match")}
+    for e in sites:
+        named = internally = False
+        not_untagged = False
+        for c in e["ctx"]:
+            if c["k"] == "match":
+                pat = S.squash(c["pat"])
+                if "Fields::Named" in pat:
+                    named = True
+                    me = match_by_id.get(c["id"])
+                    # an earlier arm of the same match takes untagged named variants away, or this arm has a guard
+                    g = S.squash(c.get("guard") or "")
+                    if g in ("!variant_attr.untagged",):
+                        not_untagged = True
+                    if me:
+                        for a in me["arms"][:c["arm"]]:
+                            if "Fields::Named" in S.squash(a["pat"]) and S.squash(a.get("guard") or "") == "variant_attr.untagged" and S.squash(a["body"]) == "None":
+                                not_untagged = True
+                if "Tagged::Internally" in pat:
+                    internally = True
+            elif c["k"] == "if":
+                cond = S.squash(c["cond"])
+                if (cond == "!variant_attr.untagged" and c["branch"] == "then") or (cond == "variant_attr.untagged" and c["branch"] == "else"):
+                    not_untagged = True
+        ok = named and internally and not_untagged
+        r.inst(fn=fn["qual"], where="%s:%s" % (fn["file"], e["line"]), named_only=named, internally_only=internally, not_for_untagged_variant=not_untagged)
+        if not ok:
+            r.fail(prop, "variant-tag-condition StructAttr::from_variant",
+                   "the tag is passed to the variant's struct body under conditions named=%s internally=%s not-untagged=%s: e.g. a #[serde(untagged)] struct variant of an internally tagged enum would be declared with the tag although serde omits it" % (named, internally, not_untagged),
+                   fn["file"], e["line"])
+    r.floor = 1
     return r
 
 
